@@ -214,7 +214,7 @@ func bodyStore(c *sim.Ctx) {
 				c.Violate(prop+"/published-wrong-ack", "job checkpoint %d entry of %s has uri %q, first acknowledged %q", jc.Id, oc.OperatorId, oc.DkvFileUri, want)
 			}
 		}
-		for op := range m.ops {
+		for _, op := range sortedKeysAny(m.ops) {
 			if seen[op] != 1 {
 				c.Violate(prop+"/published-operator-entries", "job checkpoint %d has %d entries for operator %s (want exactly 1); entries: %v", jc.Id, seen[op], op, seen)
 			}
